@@ -125,7 +125,11 @@ Definition scans (s : select) : list scan := sscans escans s.
 
 (* ------------------------------------------------------------------ tables *)
 
-Inductive tclass := CData | CIndex | COther.
+(* CSlot S: a data table whose rows are stamped with the START of a slot of S nanoseconds (timestamp_ns is a
+   multiple of S) and hold what was written during [stamp, stamp + S): the roll-up table metrics_15s.  A bound on the
+   stamp is therefore a bound on the data at slot granularity: `timestamp_ns >= lo` first reads the row stamped
+   cl_slot S lo - a lower bound inside a slot leaves out the data of that slot that lies behind it. *)
+Inductive tclass := CData | CIndex | COther | CSlot (width : Z).
 Record tinfo := { ti_class : tclass; ti_typed : bool (* has the `type` column shared by logs and metrics *) }.
 
 (* `db`.name -> name ; name_dist -> name *)
@@ -140,8 +144,10 @@ Definition table_base (t : string) : string := strip_dist (after_last_dot t t).
 
 Definition table_info (t : string) : tinfo :=
   let b := table_base t in
-  if String.eqb b "samples_v3" || String.eqb b "samples_v4" || String.eqb b "metrics_15s"
+  if String.eqb b "samples_v3" || String.eqb b "samples_v4"
   then {| ti_class := CData; ti_typed := true |}
+  else if String.eqb b "metrics_15s"
+  then {| ti_class := CSlot 15000000000; ti_typed := true |}
   else if String.eqb b "tempo_traces" || String.eqb b "profiles"
   then {| ti_class := CData; ti_typed := false |}
   else if String.eqb b "time_series" || String.eqb b "time_series_gin"
@@ -319,6 +325,19 @@ Definition type_failures (w : window) (l : list bnd) : list failure :=
   | ts => (flat_map (type_list_failures (w_type w)) ts)
   end.
 
+(* slot tables: the largest multiple of S not above x, the smallest multiple of S not below x *)
+Definition fl_slot (k x : Z) : Z := (x / k * k)%Z.
+Definition cl_slot (k x : Z) : Z := (Z.opp (Z.opp x / k) * k)%Z.
+(* rows stamped on multiples of S that pass `stamp >= lo` are the rows with stamp >= cl_slot S lo, and they hold data from
+   cl_slot S lo on; rows that pass `stamp < hi` have stamp <= cl_slot S hi - S and hold data below cl_slot S hi: the
+   timestamp bounds of a scan of a slot table, read as bounds on the data *)
+Definition slot_bnds (k : Z) (l : list bnd) : list bnd :=
+  map (fun b => match b with TsLo z => TsLo (cl_slot k z) | TsHi z => TsHi (cl_slot k z) | _ => b end) l.
+(* what may be read is widened to whole slots (the storage boundaries), what must be read is not narrowed *)
+Definition slot_win (k : Z) (w : window) : window :=
+  {| w_from := w_from w; w_to := w_to w; w_lo_min := fl_slot k (w_lo_min w);
+     w_hi_max := (cl_slot k (w_hi_max w + 1) - 1)%Z; w_type := w_type w |}.
+
 Section ORACLE.
   Variable info : string -> tinfo.       (* table_info for recorded statements; abstract in the planner theorem *)
 
@@ -329,6 +348,7 @@ Section ORACLE.
     | CData => ts_lower_failures w l true ++ ts_upper_failures w l true
     | CIndex => date_failures w l ++ ts_lower_failures w l false ++ ts_upper_failures w l false
     | COther => [FUnknownTable]
+    | CSlot k => ts_lower_failures (slot_win k w) (slot_bnds k l) true ++ ts_upper_failures (slot_win k w) (slot_bnds k l) true
     end
     ++ (if ti_typed ti then type_failures w l else []).
 
@@ -361,11 +381,21 @@ Record type_confined (w : window) (sc : scan) : Prop := {
   tc_all : forall l, has_bnd sc (Ty l) -> List.In (w_type w) l /\ (forall z, List.In z l -> z = w_type w \/ z = 0%Z)
 }.
 
+(* a slot table (rows stamped with the start of their slot of S ns): the first row read is stamped cl_slot S lo and
+   the data of the rows read ends before cl_slot S hi *)
+Record slot_bounded (k : Z) (w : window) (sc : scan) : Prop := {
+  sb_lo_ex : exists lo, has_bnd sc (TsLo lo) /\ (fl_slot k (w_lo_min w) <= cl_slot k lo)%Z;   (* confined below, to the slot boundary *)
+  sb_lo_all : forall lo, has_bnd sc (TsLo lo) -> (cl_slot k lo <= w_from w)%Z;               (* the slot holding `from` is read *)
+  sb_hi_ex : exists hi, has_bnd sc (TsHi hi) /\ (cl_slot k hi <= cl_slot k (w_hi_max w + 1))%Z;
+  sb_hi_all : forall hi, has_bnd sc (TsHi hi) -> (w_to w <= cl_slot k hi)%Z                  (* the slot holding the last instant is read *)
+}.
+
 Definition scan_bounded (info : string -> tinfo) (w : window) (sc : scan) : Prop :=
   match ti_class (info (sc_table sc)) with
   | CData => ts_bounded w sc
   | CIndex => date_covers w sc
   | COther => False
+  | CSlot k => slot_bounded k w sc
   end
   /\ (ti_typed (info (sc_table sc)) = true -> w_type w <> 0%Z -> type_confined w sc).
 
